@@ -270,3 +270,48 @@ def run(ctx):  # noqa: F811
     from .c27 import r27_7
     okl = m.func("nifty.cl.minimization.optimize_kl", "optimize_kl")
     r27_7(ctx, m, okl, rule="R22.4")
+
+
+# ---------------------------------------------------------------------------------------------------------------- R22.5 / R22.6
+def r22_5(ctx, m):
+    fi = m.func("nifty.cl.minimization.kl_energies", "draw_samples")
+    ctx.saw_func(fi)
+    ctx.rule("R22.5", "draw_samples: the task-local result lists are write-only inside the per-sample loop: what is computed for sample i "
+                      "(start position, energy, residual) never reads how many or which samples this task has already produced - that "
+                      "depends on the partition of the samples over the tasks", floor=2)
+    loops = [lp for lp in walk_no_nested(fi.node) if isinstance(lp, ast.For) and "shareRange" in src(lp.iter)]
+    if len(loops) != 1:
+        ctx.und("R22.5", f"{fi.key}::per-sample loop", f"{len(loops)} loops over shareRange", fi)
+        return
+    lp = loops[0]
+    acc = set()
+    for c in ast.walk(lp):
+        if isinstance(c, ast.Call) and isinstance(c.func, ast.Attribute) and c.func.attr in ("append", "extend") and isinstance(c.func.value, ast.Name):
+            acc.add(c.func.value.id)
+    # only lists that leave the function
+    rets = " ".join(src(r.value) for r in walk_no_nested(fi.node) if isinstance(r, ast.Return) and r.value is not None)
+    acc = {a for a in acc if a in rets}
+    if not acc:
+        ctx.und("R22.5", f"{fi.key}::task-local result lists", "none found", fi)
+        return
+    for a in sorted(acc):
+        reads = []
+        for x in ast.walk(lp):
+            if isinstance(x, ast.Name) and x.id == a and isinstance(x.ctx, ast.Load):
+                reads.append(x)
+        # loads that are the receiver of .append/.extend are fine
+        recv = {id(c.func.value) for c in ast.walk(lp) if isinstance(c, ast.Call) and isinstance(c.func, ast.Attribute) and c.func.attr in ("append", "extend")}
+        bad = [x for x in reads if id(x) not in recv]
+        ctx.check("R22.5", f"{fi.key}::`{a}` is only appended to inside the loop", not bad,
+                  f"line {bad[0].lineno}: the loop reads `{a}` (its content depends on which samples this task holds)" if bad else None, fi, bad[0] if bad else None)
+
+
+_run_c22b = run
+
+
+def run(ctx):  # noqa: F811
+    _run_c22b(ctx)
+    r22_5(ctx, ctx.model)
+    # a controller shared by all samples of a task must start every minimisation from a clean state (shared with C14)
+    from .c14 import r14_5
+    r14_5(ctx, ctx.model, rid="R22.6")
